@@ -520,6 +520,11 @@ class Run:
                 await self._await_event(c, by)
                 if mode == 'await2':
                     await self._await_event(c, by)  # awaiting an already complete event again
+                if mode == 'await_result' and c.event_completed_signal is not None and c.event_completed_signal.is_set():
+                    # (only for a child that really is complete: the accessors wait on the completion signal without processing
+                    # anything inline, so on an incomplete child (F1) they would block the handler for ever while it holds the lock)
+                    self.rec('child_result', by=by, ev=self.tag_of(c))
+                    await c.event_result()  # re-raises the child's first error (the original object) inside this handler
             elif k == 'await_actor':
                 other = self.actor_events.get(op[1], [])
                 if op[2] < len(other) and other[op[2]].event_path:
@@ -789,6 +794,19 @@ class Run:
                         res['ev'] = self.tag_of(e)
                         if e.event_path:  # only events that were accepted somewhere
                             await self._await_event(e, by)
+                elif k == 'access':
+                    if op[1] < len(mine) and mine[op[1]].event_path:
+                        e = mine[op[1]]
+                        res['ev'] = self.tag_of(e)
+                        await self._await_event(e, by)
+                        for acc in ('event_result', 'event_results_list', 'event_results_by_handler_id', 'event_results_by_handler_name', 'event_results_flat_dict', 'event_results_flat_list'):
+                            for flags in ({'raise_if_any': False, 'raise_if_none': False}, {}):
+                                try:
+                                    await getattr(e, acc)(**flags)
+                                except BaseException as ex:
+                                    if isinstance(ex, asyncio.CancelledError):
+                                        raise
+                        self.rec('accessed', by=by, ev=res['ev'], snap=self.snap(e))
                 elif k == 'await_of':
                     other = self.actor_events.get(op[1], [])
                     if op[2] < len(other) and other[op[2]].event_path:
